@@ -1,4 +1,4 @@
-"""C06 - pipelines keep moving and heal themselves after restarts and stalls.
+r"""C06 - pipelines keep moving and heal themselves after restarts and stalls.
 
 Specification: spec/proto/OFP.tla: Kill / Restart / Stall / Resume fault actions, client expiry through `age`
 (ConnTicks), periodic re-request (RTimeout), HELLO handshake after a restart, fast-forward of a restarted publisher;
@@ -205,6 +205,10 @@ def run(ctx):
     worst = max(worst, enumerate_faults(eng, rep, c3, ['A', 'K'], ks[::2], (2, 9), stall=True))
     tr = topos.tee_rejoin2(maxseq=60, conn_ticks=5, skip=())
     worst = max(worst, enumerate_faults(eng, rep, tr, ['A', 'B', 'K'] if not q else ['B'], ks[::3] if q else ks[::2], (0, 8)))
+    # a balanced splitter: a killed and restarted worker must be registered again (HELLO on every endpoint) and get frames
+    # (the splitter is the bottleneck: every send() finds the workers' requests pending)
+    bl = topos.balance2(maxseq=80, conn_ticks=5, slow_origin=True)
+    worst = max(worst, enumerate_faults(eng, rep, bl, ['W1', 'W2'] if not q else ['W1'], ks[::3] if q else ks[::2], (0, 8)))
     te = topos.tee(maxseq=60, conn_ticks=5)
     nonrequired_death(eng, rep, te, 'B', 'A', ks[::2] if q else ks)
     rq = topos.required2(maxseq=60, conn_ticks=5)
